@@ -8,7 +8,8 @@ CHECK = {
          'brain (one honest-looking block per partition) and switch-back (partitions heal at drawn slots). Honest validators follow LIP-0014 fork '
          'choice and report the largest height they generated; every header is processed by the real BFT module on the state of its parent; headers '
          'an honest node rejects as contradicting never enter the tree. Non-trivial = >=2 branches of length >=2 after a fork, >=1 Byzantine block '
-         'accepted, and finality advanced beyond the first fork. Distinct by digest of the execution log',
+         'accepted, and finality advanced beyond the first fork. Distinct by digest of the execution log'
+         ' Plus TestThresholdFloor: for drawn weight vectors, precommit thresholds 0, floor(W/3)/2 and floor(W/3) offered at genesis and as a later change must be refused and floor(W/3)+1 accepted (the safety argument of every tree needs that floor; non-trivial = total weight not divisible by 3).',
  'level_text': 'For every pair of tree nodes the blocks their chain views report as finalized (ancestors at or below maxHeightPrecommitted) must lie on '
                'one chain; along every path precommitted <= prevoted <= height and both heights are monotone; after every block of every branch the prevoted and precommitted heights the view reports equal those of the independent LIP-0058 counting model run along the same path (finality is backed by a quorum of distinct validators; the model state is cloned per tree node). A self-test with Byzantine weight '
                'beyond one third reports how often the same strategies produce a conflict (explorer power).',
